@@ -9,7 +9,8 @@ from . import C01_lib as lib
 SUPPORT = ["Dec/Ty.v", "Dec/Val.v", "Dec/Parse.v", "Dec/Text.v", "Dec/Num.v", "Dec/Common.v", "Dec/FieldMap.v",
            "Dec/Range.v", "Dec/Trailing.v", "Dec/StdBind.v", "Dec/SonicBind.v", "Dec/Compile.v", "Dec/FieldMapProofs.v",
            "Dec/FieldLookup.v", "Dec/DecProofs.v", "Dec/Witness.v", "Dec/ParseMono.v", "Dec/OptProofs.v", "Dec/DecProofs2.v",
-           "Dec/Witness2.v", "Dec/Exec.v", "Dec/ExecProofs.v", "Dec/ExecWitness.v"]
+           "Dec/Witness2.v", "Dec/Exec.v", "Dec/ExecProofs.v", "Dec/ExecWitness.v", "Dec/Code.v", "Dec/ParseFuel.v", "Dec/Path.v",
+           "Dec/SimBase.v", "Dec/Sim.v", "Dec/SimTop.v"]
 
 CLAIM = {
     "gens": [],
@@ -22,7 +23,9 @@ CLAIM = {
              "(the uint32 map-key variant was repaired by fix afd5482); CheckTrailings accepts exactly whitespace; and sonic_bind agrees with std_bind "
              "on error-or-not and on the value for the proved fragment (maps and `,string` fields under the no-collision discipline), with each known divergence as an explicit guard plus a refutation "
              "witness. Both models are tied to the real sonic and the real encoding/json on generated (type, initial value, input, config) "
-             "cases; the compiler's IL listing is tied to the model's compile for every generated type, and an interpreter of that IL (exec) is tied to the real decoder on the same cases; FieldMap and ResolveStruct are "
+             "cases; the compiler's IL listing is tied to the model's compile for every generated type, and an interpreter of that IL (exec) is tied to the real decoder on the same cases; for bool, integers, floats, string, "
+             "interface{} and pointers / slices of those (nested arbitrarily) a simulation theorem links the compiled program, run by that interpreter, "
+             "to the tree-level binder on every input (C01_compile_code, C01_il_sim); FieldMap and ResolveStruct are "
              "driven directly. The property's own oracle (sonic vs encoding/json, all generated and catalogue types) runs on every case."),
     "note": ("Trusted: Coq kernel, extraction, the OCaml driver, the Go harness, reflect-built types. The models are hand transcriptions of "
              "jitdec/compiler.go + assembler semantics and of encoding/json/decode.go, tied by differential runs, not generated from source. "
@@ -33,7 +36,6 @@ CLAIM = {
 
 # finding id -> (tags, predicate on (sonic_outcome, std_outcome, verdict, std_error_text))
 FINDINGS = [
-    ("KF-C01-array-trailing-comma", ("arrcomma",), lambda s, j, v, je, se: v == "errdiff" and s == "O"),
     ("KF-C01-unterminated-string-32", ("unterm32",), lambda s, j, v, je, se: v == "errdiff" and s == "O"),
     ("KF-C01-base64-padding", ("b64pad",), lambda s, j, v, je, se: v == "errdiff" and s == "O" and "base64" in je),
     ("KF-C01-quoted-string-inner", ("qesc",), lambda s, j, v, je, se: v == "errdiff" and s == "O" and "invalid use of ,string" in je),
